@@ -22,7 +22,7 @@ ASSUMPTIONS = [
 RULES = ("OneOfMany", "AtMostOne", "AnyOfMany")
 # driver handler configurations on the switches (the property quantifies over "whatever sequence of client writes and
 # assignments": what the driver's own handlers do with them - republish, defer, fail - is part of that sequence)
-MODES = (None, "republish", "defer-all", "defer-s0", "defer-last", "raise-change-s0", "raise-change-last", "raise-write-s0", "raise-write-last", "client-raises")
+MODES = (None, "republish", "defer-all", "defer-s0", "defer-last", "raise-change-s0", "raise-change-last", "raise-write-s0", "raise-write-last", "client-raises", "hide")
 
 
 class HandlerFault(Exception):
@@ -125,6 +125,9 @@ class Sys:
     def on(self):
         return tuple(self.vec._elements["s%d" % i]._value == "On" for i in range(self.n))
 
+    def visible(self):
+        return tuple(bool(self.vec._elements["s%d" % i]._enabled) for i in range(self.n))
+
     def apply_quiet(self, op):
         """path replay: an operation that was cut short by a failing handler when the state was first reached is cut
         short in the same way again"""
@@ -155,10 +158,18 @@ class Sys:
             self.vec.selected_value = "S%d" % op[1]
         elif kind == "selected_values":
             self.vec.selected_values = ["S%d" % i for i in op[1]]
+        elif kind == "el-enabled":
+            self.vec._elements["s%d" % op[1]].enabled = op[2]
         return [tuple((c.name, c.value) for c in m.children) for m in self.published if type(m).__name__ == "SetSwitchVector"]
 
 
-def ops(n, tier):
+def ops(n, tier, mode=None):
+    if mode == "hide":
+        # the driver hides / shows single switches (element.enabled): not an assignment, but every later write must
+        # still leave the rule intact over ALL switches, hidden or not
+        for i in range(n):
+            yield ("el-enabled", i, False)
+            yield ("el-enabled", i, True)
     for i in range(n):
         for v in (True, False):
             yield ("client", ((i, v),))
@@ -176,7 +187,7 @@ def ops(n, tier):
                 yield ("client", tuple(zip(idxs, vals)))
 
 
-def oracle(rule, pre, op, post, published, exc, deferred=frozenset(), faulted=False):
+def oracle(rule, pre, op, post, published, exc, deferred=frozenset(), faulted=False, visible=None):
     """returns list of (clause, disc, what).  deferred: indices whose client writes a Write handler defers
     (event.prevent_default): such a switch is not expected to change, everything else is judged as usual"""
     fails = []
@@ -187,12 +198,20 @@ def oracle(rule, pre, op, post, published, exc, deferred=frozenset(), faulted=Fa
 
         return [("raises", "op=%s,%s" % (kind, lib.exc_site(exc)), repr(exc))]
     npre, npost = sum(pre), sum(post)
+    hidden = visible is not None and not all(visible)
+    if kind == "el-enabled":
+        d = "rule=%s,op=el-enabled" % rule
+        if rule == "OneOfMany" and npre == 1 and npost != 1:
+            fails.append(("one-of-many", d, "pre %r op %r post %r" % (pre, op, post)))
+        if rule == "AtMostOne" and npre <= 1 and npost > 1:
+            fails.append(("at-most-one", d, "pre %r op %r post %r" % (pre, op, post)))
+        return fails
     if kind == "value-none" or fault:
         # refusing None is fine, and so is an operation cut short by a failing handler of the driver or a failing
         # connection; whatever happens, the rule predicates hold for the state and for every publication
         pubs = [sum(1 for _, v in p if v == "On") for p in published]
         d = "rule=%s,op=%s" % (rule, "value-none" if kind == "value-none" else "%s,handler-fault" % (kind if kind != "client" or len(op[1]) == 1 else "client-multi"))
-        if rule == "OneOfMany" and npre == 1 and (npost != 1 or any(x != 1 for x in pubs)):
+        if rule == "OneOfMany" and npre == 1 and (npost != 1 or any((x > 1) if hidden else (x != 1) for x in pubs)):
             fails.append(("one-of-many", d, "pre %r op %r post %r published %r" % (pre, op, post, pubs)))
         if rule == "AtMostOne" and npre <= 1 and (npost > 1 or any(x > 1 for x in pubs)):
             fails.append(("at-most-one", d, "pre %r op %r post %r published %r" % (pre, op, post, pubs)))
@@ -216,12 +235,13 @@ def oracle(rule, pre, op, post, published, exc, deferred=frozenset(), faulted=Fa
     else:
         named = None
         turned_on = list(op[1])
-    d = "rule=%s,op=%s%s" % (rule, kind if kind != "client" or len(op[1]) == 1 else "client-multi", ",deferred" if kind == "client" and len(eff) != len(op[1]) else "")
+    d = "rule=%s,op=%s%s%s" % (rule, kind if kind != "client" or len(op[1]) == 1 else "client-multi", ",deferred" if kind == "client" and len(eff) != len(op[1]) else "", ",hidden-switch" if hidden else "")
     pubs = [sum(1 for _, v in p if v == "On") for p in published]
     if rule == "OneOfMany" and npre == 1:
         if npost != 1:
             fails.append(("one-of-many", d, "pre %r op %r post %r" % (pre, op, post)))
-        if any(p != 1 for p in pubs):
+        # (a publication lists the visible switches only: with a hidden switch it may show none On, never two)
+        if any((p > 1) if hidden else (p != 1) for p in pubs):
             fails.append(("one-of-many-published", d, "pre %r op %r published On-counts %r" % (pre, op, pubs)))
     if rule == "AtMostOne" and npre <= 1:
         if npost > 1:
@@ -258,7 +278,7 @@ def oracle(rule, pre, op, post, published, exc, deferred=frozenset(), faulted=Fa
     if published and kind != "selected_values" and kind != "selected_value":
         last = published[-1]
         got = tuple(v == "On" for _, v in last)
-        if got != tuple(post):
+        if got != tuple(p for i, p in enumerate(post) if visible is None or visible[i]):
             fails.append(("published-final-state", d, "post %r last published %r" % (post, last)))
     return fails
 
@@ -294,7 +314,7 @@ def run_shard(shard):
     s0 = root.state()
     parent = {s0: None}
     fr = deque([s0])
-    allops = list(ops(n, tier))
+    allops = list(ops(n, tier, mode))
     while fr:
         st = fr.popleft()
         path = []
@@ -322,7 +342,7 @@ def run_shard(shard):
             if isinstance(exc, HandlerFault) or sysm.faulted:
                 published = [tuple((c.name, c.value) for c in m.children) for m in sysm.published if type(m).__name__ == "SetSwitchVector"]
                 res["handler_faults"] = res.get("handler_faults", 0) + 1
-            fails = oracle(rule, pre, op, post, published, exc, sysm.deferred, sysm.faulted)
+            fails = oracle(rule, pre, op, post, published, exc, sysm.deferred, sysm.faulted, sysm.visible())
             fails += getters(sysm, rule, post)
             for clause, disc, what in fails:
                 key = (clause, disc)
@@ -380,4 +400,4 @@ def replay(rep):
         exc = e
     if isinstance(exc, HandlerFault) or sysm.faulted:
         pub = [tuple((c.name, c.value) for c in m.children) for m in sysm.published if type(m).__name__ == "SetSwitchVector"]
-    return [{"clause": c, "disc": d, "what": w} for c, d, w in oracle(rep["rule"], pre, op, sysm.on(), pub, exc, sysm.deferred, sysm.faulted) + getters(sysm, rep["rule"], sysm.on())]
+    return [{"clause": c, "disc": d, "what": w} for c, d, w in oracle(rep["rule"], pre, op, sysm.on(), pub, exc, sysm.deferred, sysm.faulted, sysm.visible()) + getters(sysm, rep["rule"], sysm.on())]
